@@ -40,7 +40,9 @@
 //	D8 SETUP without any description, for a track that the current description
 //	   does not contain, with a transport the RFC grammar cannot derive, with
 //	   mode=record in a play session or mode=play (the default, §12.39) in a
-//	   record session → refused, any code (455 included).
+//	   record session → refused, any code (455 included). Exception: once a
+//	   SETUP(mode=record) was accepted, a further SETUP that carries no mode parameter
+//	   may inherit the session's mode (left to the server).
 //	D9 SETUP for a track URL under another path than the described one, SETUP
 //	   when the description has no a=control, record over UDP / multicast: outcome
 //	   left to the server (expAny).
@@ -50,7 +52,8 @@
 //	   is what "keeps the connection usable after any refused request" means
 //	   here: the legal dialogue can still be completed afterwards).
 //	D12 over ws-rtsp the path of a DESCRIBE is the path of the WebSocket URL
-//	   (documented behaviour of the endpoint), not the one in the request line.
+//	   (the endpoint is /streams/<path>), not the one in the request line; once an
+//	   ANNOUNCE succeeded on the connection the outcome of a DESCRIBE is left open.
 package c12
 
 import "fmt"
@@ -94,14 +97,15 @@ type env struct {
 }
 
 type model struct {
-	St       mstate
-	Mode     string          // "" | "play" | "record": set by the last successful DESCRIBE / ANNOUNCE
-	Path     string          // path of the current description
-	Tracks   map[string]bool // media kinds of the current description that carry an a=control
-	NoCtl    bool            // the current description has media without a=control
-	Setup    map[string]string // media kind → transport kind of accepted SETUPs
-	Released bool            // after a successful TEARDOWN
-	WSPath   string          // != "": ws-rtsp connection to this path (D12)
+	St        mstate
+	Mode      string            // "" | "play" | "record": set by the last successful DESCRIBE / ANNOUNCE
+	Path      string            // path of the current description
+	Tracks    map[string]bool   // media kinds of the current description that carry an a=control
+	NoCtl     bool              // the current description has media without a=control
+	Setup     map[string]string // media kind → transport kind of accepted SETUPs
+	Released  bool              // after a successful TEARDOWN
+	WSPath    string            // != "": ws-rtsp connection to this path (D12)
+	Announced string            // path of the last successful ANNOUNCE on this connection
 }
 
 func newModel(wsPath string) *model {
@@ -127,6 +131,18 @@ func (m *model) describe(e *env, s *step) expectation {
 	if m.WSPath != "" {
 		path = m.WSPath // D12
 	}
+	if m.WSPath != "" && m.Announced != "" {
+		// D12: which path a ws-rtsp connection describes after an ANNOUNCE re-targeted it is
+		// not defined anywhere; the outcome is left to the server
+		if !e.Live[path] {
+			path = m.Announced
+		}
+		return expectation{Kind: expAny, Why: "DESCRIBE over ws-rtsp after an ANNOUNCE on the same connection (D12)", apply: func(m *model) {
+			m.Mode, m.Path = "play", path
+			m.Tracks = map[string]bool{"video": true, "audio": true}
+			m.NoCtl = false
+		}}
+	}
 	if !e.Live[path] {
 		return expectation{Kind: expRefuse, Why: "DESCRIBE of a path without a stream"}
 	}
@@ -145,6 +161,7 @@ func (m *model) announce(e *env, s *step) expectation {
 	path := s.Path
 	return expectation{Kind: expOK, Why: "ANNOUNCE with a valid SDP", apply: func(m *model) {
 		m.Mode, m.Path = "record", path
+		m.Announced = path
 		m.Tracks = map[string]bool{}
 		m.NoCtl = false
 		switch s.SDP {
@@ -177,6 +194,11 @@ func (m *model) setup(e *env, s *step) expectation {
 	want := s.Mode
 	if want == "" {
 		want = "play" // §12.39: "If not provided, the default is PLAY"
+	}
+	if s.Mode == "" && m.Mode == "record" && len(m.Setup) > 0 {
+		// D8: the session's record mode was already stated by an accepted SETUP(mode=record);
+		// a server may let a further SETUP without mode parameter inherit it
+		return expectation{Kind: expAny, Why: "SETUP without mode parameter after an accepted SETUP(mode=record) (D8)", apply: took}
 	}
 	if want != m.Mode {
 		return expectation{Kind: expRefuse, Why: fmt.Sprintf("SETUP mode=%s in a %s session (D8)", want, m.Mode)}
